@@ -306,6 +306,11 @@ fn check_history(endings: &[Ending], goaway_pos: usize, seed: u64, rep: &mut Rep
     let case = json!({"endings": endings.iter().map(|e| format!("{:?}", e)).collect::<Vec<_>>(), "goaway_released_before_request": goaway_pos});
     let mut cfg = NetCfg::random(&mut rng);
     cfg.backpressure = false;
+    // streams may be surfaced by the transport in another order than their ids (the trait allows
+    // it): half of the histories release the requests in a shuffled order on a transport that
+    // surfaces a stream when its first bytes arrive
+    let out_of_order = rng.bool();
+    cfg.ordered_accept = !out_of_order;
     let net = sim::new_net(cfg);
     let ctrl;
     let mut ids = Vec::new();
@@ -315,6 +320,15 @@ fn check_history(endings: &[Ending], goaway_pos: usize, seed: u64, rep: &mut Rep
         ctrl = raw::open_control(&mut n, CLIENT, &[]);
         for _ in endings {
             ids.push(n.raw_open(CLIENT, true));
+        }
+    }
+    if out_of_order && ids.len() > 1 {
+        for i in (1..ids.len()).rev() {
+            let j = rng.usize(i + 1);
+            ids.swap(i, j);
+        }
+        if ids.windows(2).any(|w| w[0] > w[1]) {
+            rep.count("histories_released_out_of_id_order");
         }
     }
     let probe = Probe::new(&net);
